@@ -50,7 +50,26 @@ pub fn unit_models(rng: &mut ChaCha8Rng, count: usize, moderate: bool) -> Vec<(L
                     ..Default::default()
                 },
             );
-            v.push((spec, if cont { "g-lp-continuous" } else { "g-lp-mixed" }));
+            let mut spec = spec;
+            let mut origin = if cont { "g-lp-continuous" } else { "g-lp-mixed" };
+            if moderate && cont && rng.gen_range(0..12) == 0 {
+                // one coefficient of a few millionths on a boxed variable: the term still matters
+                // (5e-6 * 10 = 5e-5, 5e-6 * 5000 = 2.5e-2) and a bridge that treats it as zero returns an infeasible point
+                let boxed: Vec<usize> = spec.vars.iter().enumerate().filter(|(_, (_, t))| matches!(t, VSpec::Real(Some(_), Some(_)) | VSpec::NonNeg(_, Some(_)))).map(|(j, _)| j).collect();
+                // not next to a duplicate row: two copies of a row that differ by 2e-6 * v are consistent only
+                // within the solvers' tolerance, which is a different question (C05's band)
+                let has_twin_rows = (0..spec.rows.len()).any(|a| (0..a).any(|c| spec.rows[a].a == spec.rows[c].a));
+                if let (Some(&j), false, false) = (boxed.first(), spec.rows.is_empty(), has_twin_rows) {
+                    let i = rng.gen_range(0..spec.rows.len());
+                    spec.rows[i].a[j] = [5e-6, -8e-6, 2e-6][rng.gen_range(0..3)];
+                    if let VSpec::Real(_, Some(hi)) | VSpec::NonNeg(_, Some(hi)) = &mut spec.vars[j].1 {
+                        // (a box of a few thousand makes the term worth a few hundredths, well above every tolerance band)
+                        *hi += [10.0, 2000.0, 5000.0][rng.gen_range(0..3)];
+                    }
+                    origin = "g-lp-tiny-coefficient";
+                }
+            }
+            v.push((spec, origin));
         }
     }
     v
@@ -140,6 +159,8 @@ impl Driver for C04 {
                                     "clarabel:astronomical-point-returned-for-infeasible-model(|x|>=1e6)".to_string()
                                 } else if (solver == "tableau" || solver == "clarabel") && class.starts_with("tolerance-level") {
                                     format!("{solver}:tolerance-level-violation(1e-6..1e-3)")
+                                } else if solver == "tableau" && amplified_tolerance(&what) {
+                                    "tableau:tolerance-amplified-violation(1e-3..1e-2)".to_string()
                                 } else {
                                     format!("{solver}:{class};truth={truth}")
                                 };
@@ -216,6 +237,11 @@ fn precondition_label(spec: &LmSpec) -> &'static str {
     } else {
         "no-free-variable"
     }
+}
+
+/// The certificate's explanation ends with "by <scaled violation> (scaled)".
+fn amplified_tolerance(what: &str) -> bool {
+    what.rsplit(" by ").next().and_then(|t| t.split_whitespace().next()).and_then(|v| v.parse::<f64>().ok()).is_some_and(|v| v > 1e-3 && v <= 1e-2)
 }
 
 /// Structural precondition of a known finding: a continuous variable whose interval is narrower than
